@@ -64,6 +64,28 @@ def scratch_with_patch(patch):
     return tmp
 
 
+def harvest(name, pid, replay_rel, tmp):
+    """Keep the (shrunk) failing input as a permanent regress file if it fails on the patched copy, passes on
+    /repo and is not already a committed regress file."""
+    src = os.path.join(HERE, replay_rel)
+    if not os.path.exists(src) or replay_rel.startswith("regress/"):
+        return replay_rel if replay_rel.startswith("regress/") else None
+    on_patch = sh([os.path.join(HERE, "check"), pid, "--replay", src], env=dict(os.environ, VERIF_REPO=tmp))
+    on_repo = sh([os.path.join(HERE, "check"), pid, "--replay", src], env=dict(os.environ, VERIF_REPO="/repo"))
+    if on_patch.returncode != 1 or on_repo.returncode != 0:
+        return None
+    doc = json.load(open(src, encoding="utf-8"))
+    doc.pop("found_with_seed", None)
+    doc["note"] = "shrunk failing input found by this check on seeded change %s; passes on the unchanged tree" % name
+    dst_dir = os.path.join(HERE, "regress", pid)
+    os.makedirs(dst_dir, exist_ok=True)
+    dst = os.path.join(dst_dir, "seeded-%s.json" % name)
+    with open(dst, "w", encoding="utf-8") as fh:
+        json.dump(doc, fh, indent=1, sort_keys=True)
+        fh.write("\n")
+    return os.path.relpath(dst, HERE)
+
+
 def run_one(name, tiers):
     d = os.path.join(SEEDED, name)
     pid = name.split("-")[0]
@@ -92,7 +114,7 @@ def run_one(name, tiers):
             for tier in tiers:
                 t0 = time.time()
                 try:
-                    res = sh([os.path.join(HERE, "check"), pid, "--tier", tier, "--no-evidence"],
+                    res = sh([os.path.join(HERE, "check"), pid, "--tier", tier, "--no-evidence", "--no-regress"],
                              env=dict(os.environ, VERIF_REPO=tmp, VERIF_SEED="1"), timeout=7200)
                     code = res.returncode
                     fail = [l.strip() for l in res.stdout.splitlines() if l.strip().startswith("failure:")]
@@ -103,6 +125,8 @@ def run_one(name, tiers):
                 row["checks"][tier] = {"exit": code, "detected": code == 1 and bool(viol),
                                        "wall_s": round(time.time() - t0, 1),
                                        "first_failure": (fail[0][:300] if fail else ""), "tail": tail}
+                if code == 1 and viol and "replay=" in viol[0]:
+                    row["regress_file"] = harvest(name, pid, viol[0].split("replay=")[1].strip(), tmp)
                 if code == 1:
                     break
     finally:
